@@ -58,7 +58,11 @@ Decided:
          counter that earlier iterations set (the contexts of one group are merged: a section that can be computed is
          computed, whatever happened to the others);
   R18.d  templates: every reference of the meta_*.html templates is escaped, except the allow-listed
-         {content|s} of meta_base.html, whose value is an ashes render of a checked section template.
+         {content|s} of meta_base.html, whose value is an ashes render of a checked section template.  Table agreement
+         for the resource listing: the template peripheral whose get_context reaches the listing renders a template with
+         a {#<key>} section named by a key of that context, every reference inside the section is a text the listing
+         code uses as a key, and -- where the shape tells -- the key under which the marker / the value is stored is
+         referenced (else the page answers 200 and shows neither marker nor values); judged as far as the shape is read.
   R18.e  textual representations: the views print host objects they know nothing about (repr() of resource values,
          middlewares, endpoints -- the repr of a bound method contains the repr of its instance --, exceptions), so no
          ``__repr__`` / ``__str__`` / ``__format__`` of a class of the tree (R18.a's value flow, run over these methods and
